@@ -530,11 +530,15 @@ fn delta(x: u64, how: &str) -> Option<u64> {
         "+1" => Some(if x == P64 - 1 { 0 } else { x + 1 }),
         "-1" => Some(if x == 0 { P64 - 1 } else { x - 1 }),
         "0<->1" => Some(if x == 0 { 1 } else { 0 }),
+        // the non-canonical spelling of the same field element (only where the statement is given as
+        // integers: stack inputs, stack outputs, overflow addresses): it must not be accepted as a
+        // statement at all, let alone verify
+        "+p" => x.checked_add(P64),
         _ => panic!("harness: unknown delta {how}"),
     }
 }
 
-const HOWS: [&str; 3] = ["+1", "-1", "0<->1"];
+const HOWS: [&str; 4] = ["+1", "-1", "0<->1", "+p"];
 
 /// every single deviation of a statement, as descriptors (simplest first)
 fn stmt_devs(s: &Stmt) -> Vec<Value> {
@@ -576,7 +580,7 @@ fn stmt_devs(s: &Stmt) -> Vec<Value> {
         }
     }
     for i in 0..s.out_addrs.len() {
-        for how in ["+1", "-1"] {
+        for how in ["+1", "-1", "+p"] {
             v.push(json!({"field": "stack_outputs.overflow_addr", "i": i, "how": how}));
         }
     }
